@@ -569,6 +569,12 @@ func Enotation(fn parser.Function, args []value.Primary, _ *option.Flags) (value
 	return value.NewString(s), nil
 }
 
+// MaxLengthArgument is the largest number accepted where an argument asks for a result of that length: the
+// length of LPAD and RPAD, the precision of NUMBER_FORMAT, the width and the precision of a placeholder of
+// FORMAT. A larger number is an argument error, not an attempt to allocate that much memory. The fmt package,
+// which formats the placeholders, has the same limit.
+const MaxLengthArgument = 1000000
+
 func NumberFormat(fn parser.Function, args []value.Primary, _ *option.Flags) (value.Primary, error) {
 	if len(args) < 1 || 5 < len(args) {
 		return nil, NewFunctionArgumentLengthError(fn, fn.Name, []int{1, 2, 3, 4, 5})
@@ -589,6 +595,9 @@ func NumberFormat(fn parser.Function, args []value.Primary, _ *option.Flags) (va
 		if !value.IsNull(i) {
 			precision = int(i.(*value.Integer).Raw())
 			value.Discard(i)
+			if MaxLengthArgument < precision {
+				return nil, NewFunctionInvalidArgumentError(fn, fn.Name, fmt.Sprintf("precision must be less than or equal to %d", MaxLengthArgument))
+			}
 		}
 	}
 	if 2 < len(args) {
@@ -769,6 +778,9 @@ func execStringsPadding(fn parser.Function, args []value.Primary, direction Dire
 	}
 	length := int(l.(*value.Integer).Raw())
 	value.Discard(l)
+	if MaxLengthArgument < length {
+		return nil, NewFunctionInvalidArgumentError(fn, fn.Name, fmt.Sprintf("length must be less than or equal to %d", MaxLengthArgument))
+	}
 
 	p := value.ToString(args[2])
 	if value.IsNull(p) {
